@@ -37,3 +37,29 @@ Theorem C02_equal_states_equal_backoffs : forall N T M, (2 <= N)%nat -> forall s
   valid N T M s1 h1 -> valid N T M s2 h2 -> s_words s1 = s_words s2 ->
   s_bo s1 = s_bo s2 /\ forall w, full_score N T s1 w = full_score N T s2 w.
 Proof. intros N T M HN s1 h1 s2 h2 V1 V2 Hw. eapply equal_states_equal_backoffs; eassumption. Qed.
+
+(* State comparison, ordering and hashing are mutually consistent (model of lm/state.hh: length first, then memcmp
+   over the little-endian bytes of the words; hash over exactly those bytes): Compare = 0 iff ==, Compare < 0 iff <,
+   equal states have equal hash input, and exactly one of <, ==, > holds. *)
+From Kenlm Require Import C02.StateCmp.
+Theorem C02_compare_consistent : forall a b, wf a -> wf b ->
+  (st_compare a b = 0 <-> st_eq a b = true) /\
+  (st_compare a b < 0 <-> st_lt a b = true) /\
+  (st_compare a b > 0 <-> st_lt b a = true) /\
+  (st_eq a b = true -> c_len a = c_len b /\ c_words a = c_words b /\ st_hash_input a = st_hash_input b) /\
+  (st_lt a b = true /\ st_eq a b = false /\ st_lt b a = false \/
+   st_lt a b = false /\ st_eq a b = true /\ st_lt b a = false \/
+   st_lt a b = false /\ st_eq a b = false /\ st_lt b a = true).
+Proof. exact state_compare_consistent. Qed.
+
+Theorem C02_left_compare_consistent : forall a b,
+  (left_compare a b = 0 <-> left_eq a b = true) /\
+  (left_lt a b = true <-> left_compare a b = -1) /\
+  (left_compare a b = -1 \/ left_compare a b = 0 \/ left_compare a b = 1) /\
+  left_compare b a = - left_compare a b /\
+  (left_eq a b = true -> left_hash_input a = left_hash_input b).
+Proof. exact left_compare_consistent. Qed.
+
+(* finding F13 (repaired in /repo): the previous operator== ignored `full` for empty left states *)
+Theorem C02_pre_fix_left_eq_hash_refuted : exists a b, pre_fix_left_eq a b = true /\ left_hash_input a <> left_hash_input b.
+Proof. exact pre_fix_left_eq_hash_refuted. Qed.
